@@ -188,6 +188,10 @@ func TakeSnap(dir string) Snap {
 		}
 		rel, _ := filepath.Rel(dir, p)
 		e := Entry{Name: rel, Dir: info.IsDir(), Size: info.Size(), Mtime: info.ModTime().UnixNano(), Mode: uint32(info.Mode())}
+		if info.Mode()&os.ModeSymlink != 0 {
+			// a symbolic link is what it points to: its own time stamp is that of the copy the harness made
+			e.Mtime = 0
+		}
 		if !info.IsDir() && info.Mode().IsRegular() {
 			b, _ := os.ReadFile(p)
 			h := sha256.Sum256(b)
